@@ -277,9 +277,11 @@ func c10r3(c *Check) {
 	}
 	sends := sendsOn(fl, outF)
 	var del ssa.Instruction
+	var dels []ssa.Instruction
 	allInstrs(fl, func(in ssa.Instruction) {
 		if cc, ok := isBuiltinCall(in, "delete"); ok && isFieldLoad(cc.Args[0], aggsF) {
 			del = in
+			dels = append(dels, in)
 		}
 	})
 	if len(sends) == 0 || del == nil {
@@ -291,9 +293,11 @@ func c10r3(c *Check) {
 		if !outer.Body[s.Block()] {
 			okOrder = false
 		}
-		// no send reachable after the delete within the same iteration
-		if instrReachAvoiding(del, s, outer.Header.Instrs[len(outer.Header.Instrs)-1]) {
-			okOrder = false
+		// no send reachable after a delete within the same iteration
+		for _, d := range dels {
+			if instrReachAvoiding(d, s, outer.Header.Instrs[len(outer.Header.Instrs)-1]) {
+				okOrder = false
+			}
 		}
 	}
 	// delete key = loop element
